@@ -368,7 +368,7 @@ def r08c(R):
                         'start site / completion callback')
 
 
-@rule('R08.d', ('C08',), 'the completion callback always fires and clears the '
+@rule('R08.d', ('C08', 'C20'), 'the completion callback always fires and clears the '
       'active agent before starting the next job', floor=3,
       decides='a job that ends by raising does not hold up the jobs behind it; '
               'the queue drains')
